@@ -57,6 +57,16 @@ def to_json(x, classes, depth=0, memo=None):
     return {"$opaque": getattr(x, "name", None) or f"{cname}@{id(x)}"}
 
 
+def _run_coro(coro):
+    """run a coroutine to completion on a loop of its own and close the loop (a leaked loop keeps file descriptors)"""
+    import asyncio
+    loop = asyncio.new_event_loop()
+    try:
+        return loop.run_until_complete(coro)
+    finally:
+        loop.close()
+
+
 def _packet(rng, seq, ts):
     from aiortc.rtp import RtpPacket
     p = RtpPacket(payload_type=96, sequence_number=seq % 65536, timestamp=ts % (1 << 32))
@@ -415,7 +425,7 @@ def RTCSctpTransport(rng, inst):
         if rng.random() < 0.7:
             import asyncio
             try:
-                asyncio.new_event_loop().run_until_complete(t._data_channel_flush())
+                _run_coro(t._data_channel_flush())
             except Exception:
                 pass
     t._reconfig_queue = []
@@ -450,7 +460,14 @@ def RTCSctpTransport(rng, inst):
         req = SRO(request_sequence=rng.choice([0, 77, (1 << 32) - 1]), response_sequence=0,
                   last_tsn=rng.choice([t._last_received_tsn, (t._last_received_tsn + 5) % (1 << 32)]), streams=ids)
         try:
-            asyncio.new_event_loop().run_until_complete(t._receive_reconfig_param(req))
+            _run_coro(t._receive_reconfig_param(req))
+        except Exception:
+            pass
+    if t._data_channels and rng.random() < 0.3:
+        # a DATA_CHANNEL_ACK from the peer for one of the registered channels, whatever state it is in by now
+        import asyncio
+        try:
+            _run_coro(t._data_channel_receive(rng.choice(list(t._data_channels)), 50, b"\x02"))
         except Exception:
             pass
     if rng.random() < 0.3:
@@ -462,7 +479,7 @@ def RTCSctpTransport(rng, inst):
         ft.cumulative_tsn = (t._last_received_tsn + rng.choice([0, 1, 2, 3, (1 << 32) - 1])) % (1 << 32)
         ft.streams = [(sid_, rng.choice([0, 5, 65534, 65535])) for sid_ in list(t._inbound_streams)[:2] + [9] if rng.random() < 0.7]
         try:
-            asyncio.new_event_loop().run_until_complete(t._receive_forward_tsn_chunk(ft))
+            _run_coro(t._receive_forward_tsn_chunk(ft))
         except Exception:
             pass
     # stream resets: some registered channels are closing; the first few are in an outstanding request, the rest queued
@@ -483,7 +500,7 @@ def RTCSctpTransport(rng, inst):
             import asyncio
             resp = StreamResetResponseParam(response_sequence=rng.choice([t._reconfig_request.request_sequence] * 3 + [5]), result=1)
             try:
-                asyncio.new_event_loop().run_until_complete(t._receive_reconfig_param(resp))
+                _run_coro(t._receive_reconfig_param(resp))
             except Exception:
                 pass
     return t
